@@ -542,3 +542,31 @@ _splice("C05", "tensorclass, TensorDictParams, _SubTensorDict, NonTensorData and
         "tensorclass, TensorDictParams, _SubTensorDict, NonTensorData, lazy pop / popitem / stack[idx] = td / update from a lazy source are judged by the oracle only;", "note")
 _append("C09", "A stack that stays lazy under expand meets a higher-rank operand member-wise along the SHIFTED stack dim (theorem `lazy_expand_member`; unbinding "
                "along the original dim is refuted by a witness).")
+
+# ---- last short round (C10 C13 C14 C16 C20) -------------------------------------------------------------------------------------------
+_splice("C10", "load_memmap_ / memmap_refresh_ are transcribed (two theorems, the full refresh statement is differential only).",
+        "load_memmap_ / memmap_refresh_ are transcribed; make_memmap* under nested keys of ANY depth (existing nodes walked into, missing ones created with "
+        "their own read-modify-write of the parent's meta.json) leaves a directory that decodes to the extended tree, and memmap_refresh_ / load_memmap_ of a "
+        "second mapping afterwards sees the new entry (same mapping as a fresh load), for every kind of neighbour node; a refresh with nothing changed on disk "
+        "is the identity.")
+_splice("C10", "share_non_tensor and jagged nested tensors are not covered; make_memmap_merge for nested keys and the full refresh statement are stated, not proved.",
+        "share_non_tensor and jagged nested tensors are not covered; sequences of make_memmap calls (beyond the first after a save) and "
+        "`pool_builds_encode` are stated, not proved.", "note")
+_splice("C13", "Not proved (model + run only): use_state_dict, hand-written swap-back, tensor contents and exceptional exits of in-place blocks.",
+        "For EVERY program of with-blocks (plain, swap_dest, in-place, use_state_dict; any nesting; any exception class) an exceptional exit leaves the "
+        "state a normal exit leaves; in-place blocks at any nesting depth restore every slot's object AND every tensor's content on every exit, for every "
+        "module DAG (shared sub-modules, tied names) without storage-level aliasing between distinct tensor objects (the complement is finding D137, refuted "
+        "by a witness); re-applying an installed swap with return_swap=False is a no-op for any DAG. Not proved (model + run only): use_state_dict, contents of "
+        "programs mixing plain and in-place blocks, the there-and-back of the hand-written swap-back for shared sub-modules.")
+_append("C14", "`_dist_sample` is modelled on WRAPPED distributions (Independent and TransformedDistribution-style layers: what the outer object answers, the "
+               "code's register lookup): for every stack with at most one Independent on top the decision is the documented table for the unwrapped base's "
+               "registration and depends on nothing else (refuted for two nested Independent layers: finding D14A); real mean != mode distributions "
+               "(LogNormal, Gamma, Beta, Poisson; plain and wrapped) are compared with their own attributes on every run.")
+_splice("C16", "Shape ops on stacks (finding C16-i), memmap/pickle/to_dict and lazy containers are covered by the oracle run only.",
+        "Shape ops on a NonTensorData are inside the model and proved for every rank and argument through C02's model of the code on an entry-less tensordict "
+        "(depends on Model/C02_ShapeOps and Proofs/C02_OpsP); view / reshape of a NonTensorStack: fall-through branch modelled and refuted by witnesses (finding "
+        "C16-i, narrowed to reshape / view to a non-merging shape and gather); the merging / splitting reorganisation, the other shape ops on stacks, "
+        "memmap/pickle and lazy containers are covered by the oracle run only; from_list / tolist / to_dict round trip proved.", "note")
+_append("C20", "In-place write-back (one-level store model with `copies_items` for containers whose items() are copies, e.g. _SubTensorDict under an advanced index): "
+               "the stored value under every key after an in-place call is fn's result whether or not fn handed back its own argument; a fast path that skips "
+               "the write-back is harmless on views and refuted on copies.")
